@@ -313,6 +313,8 @@ void addTecmpOp(Gen& g, int node, bool faulty)
     op.set("kind", kind).set("id", g.msgId());
     op.set("dev", static_cast<int64_t>(r.below(4))).set("ctr", static_cast<int64_t>(r.below(65536))).set("ver", r.pick<int64_t>({2, 3}));
     op.set("ifid", static_cast<int64_t>(r.below(50))).set("ts", static_cast<int64_t>(g.pickTs()));
+    if (r.chance(1, 2))
+        op.set("xflags", r.chance(1, 2) ? (1LL << r.below(16)) : static_cast<int64_t>(r.below(65536))).set("dflags", static_cast<int64_t>(r.below(65536)));
     switch (kind)
     {
         case 1:
@@ -474,6 +476,43 @@ Plan genHostile(const std::string& prop, int tier, uint64_t batchSeed, uint64_t 
     const bool enFault = r.chance(4, 5), enOrphan = r.chance(2, 3), enTecmp = r.chance(1, 2), enNoise = r.chance(1, 2), enRestart = r.chance(1, 3),
                enStale = r.chance(1, 3);
     const uint32_t faultRate = static_cast<uint32_t>(r.pick<int64_t>({5, 15, 30, 60}));
+    const bool flood = !c02 && !manyEndpoints && nNodes >= 2 && r.chance(1, tier ? 25 : 60);
+    if (flood)
+    {
+        // one endpoint opens a message and stays silent while MORE THAN A THOUSAND frames of the others go by,
+        // then continues: nothing that happens elsewhere may age its reassembly out
+        size_t a = 0;
+        for (size_t i = 0; i < nNodes; ++i)
+            if (nodeType[i] == 2)
+                a = i;
+        Item& op = g.addOp(OP_RAWSEG, nodeType[a] == 2 ? static_cast<int>(a + 1) : noiseNode, 3);
+        op.set("dev", eps[a].first).set("stream", eps[a].second).set("ver", 1).set("mtype", 1).set("ptype", 0x20).set("id", g.msgId());
+        op.set("gap", 400000).set("lat", 1);
+        for (int k = 0; k < 3; ++k)
+        {
+            Item sgm("s");
+            sgm.set("len", r.range(1, 20));
+            op.sub.push_back(sgm);
+        }
+        const size_t nFlood = 1050 + r.below(500);
+        for (size_t k = 0; k < nFlood; ++k)
+        {
+            size_t b = r.below(nNodes);
+            if (b == a)
+                b = (b + 1) % nNodes;
+            if (nodeType[b] != 2 || r.chance(9, 10))
+            {
+                Item& fo = g.addOp(OP_RAW, noiseNode, 1);
+                fo.set("dev", eps[b].first).set("stream", eps[b].second).set("ver", 1).set("mtype", 1).set("lat", 1);
+                Item m("m");
+                m.set("kind", 0).set("ptype", 0x20).set("len", r.range(0, 6)).set("id", g.msgId()).set("seg", r.chance(1, 8) ? 1 : 0);
+                fo.sub.push_back(std::move(m));
+            }
+            else
+                addTrafficOp(g, static_cast<int>(b + 1), 2, true, 3);
+        }
+        g.cfg().set("flood", 1);
+    }
     if (manyEndpoints)
     {
         // every endpoint opens a reassembly first: the pending table grows past its initial bucket counts (13, 29)
@@ -491,7 +530,20 @@ Plan genHostile(const std::string& prop, int tier, uint64_t batchSeed, uint64_t 
     {
         const uint64_t sel = r.below(100);
         const int ni = static_cast<int>(r.below(nNodes));
-        if (sel < 2 && nodeType[ni] == 2)
+        if (sel < 3 && sel >= 2 && nodeType[ni] == 2)
+        {
+            // a segmented message of a few HUGE segments: the reassembled total passes 32 KiB / 64 KiB
+            Item& op = g.addOp(OP_RAWSEG, ni + 1, 4);
+            op.set("ver", 1).set("mtype", 1).set("ptype", 0x20).set("id", g.msgId());
+            const int ns = static_cast<int>(r.range(2, 4));
+            for (int k = 0; k < ns; ++k)
+            {
+                Item sgm("s");
+                sgm.set("len", r.range(15000, 40000));
+                op.sub.push_back(sgm);
+            }
+        }
+        else if (sel < 2 && nodeType[ni] == 2)
         {
             // a jumbo frame: more than 32 KiB / 64 KiB on the wire
             Item& op = g.addOp(OP_RAW, ni + 1, 1);
